@@ -133,14 +133,20 @@ class Scenario:
     GAPS_MS = [1, 999, 1000, 5000, 29999, 30001, 59999, 60001, 120000, 3600000, 40000000, 1 << 33]
     BASES_MS = [0, 1, 999, 10 ** 6, (1 << 32) - 20000, (1 << 32) + 5, 1 << 40]
 
-    def frames(self, i, frames, rng=None, p_gap=0.0, base=False, inserts=None):
+    def frames(self, i, frames, rng=None, p_gap=0.0, base=False, inserts=None, shadow=None):
         """The frames in order; with rng, the virtual clock starts at an arbitrary base and moves on by an arbitrary
         amount between some of the frames (no frame-level behaviour may depend on either).  Clock lines are not
         inputs, so input k of the log is still frame k."""
         gaps = 0
         if rng is not None and base and rng.random() < 0.5:
             self.lines.append("NOW %d" % rng.choice(self.BASES_MS))
+        sh = list(shadow[1]) if shadow else []
+        per = (len(sh) / max(1, len(frames))) if sh else 0.0
         for k, fr in enumerate(frames):
+            # a second interface served by the same process (shadow = (iface index, its frames)) sees its own traffic in
+            # between; the runner hides its inputs from the monitor, the interface under test must not notice it
+            while sh and rng is not None and rng.random() < min(0.9, per):
+                self.frame(shadow[0], sh.pop(0))
             for ln in (inserts or {}).get(k, ()):
                 self.lines.append(ln)           # e.g. "MTU 0 1500 7": the platform changes between two frames
             if rng is not None and p_gap and rng.random() < p_gap:
@@ -148,6 +154,8 @@ class Scenario:
                 gaps += 1
             self.frame(i, fr)
         self.meta["clock_gaps"] = self.meta.get("clock_gaps", 0) + gaps
+        if shadow:
+            self.meta["shadow"] = shadow[0]
         return self
 
     def text(self):
